@@ -113,7 +113,12 @@ class HashFileDB(ObjectDB):
                 if verify:
                     self.check(o, check_hash=True)
                 self.protect(cache_path)
-            except (ObjectFormatError, FileNotFoundError):
+            except ObjectFormatError as exc:
+                # check() has removed the corrupted object: it was not added
+                transferred = max(transferred - 1, 0)
+                if on_error is not None:
+                    on_error(o, exc)
+            except FileNotFoundError:
                 pass
 
         self.state.save_many(
